@@ -511,10 +511,23 @@ def rule_k6(repo):
     return res
 
 
-def _from_cited(flow, expr, prf, seq):
+def _from_cited(flow, expr, prf, seq, func=None):
     """expr is made of the step's argument and of what was read from the cited steps, nothing else"""
     roots = {r for r in flow.resolve(expr) if not r.startswith(('zip()', 'enumerate()', 'list()', 'tuple()', 'range()', 'len()'))}
     ok = (seq + '.args', seq + '.prevs', prf + '.find_item()')
+    # the result of a function defined inside the checker (`[cited_th(p) for p in seq.prevs]`): what it returns, its own
+    # parameters aside (the arguments are among the roots already)
+    for r in sorted(roots):
+        name = r.split('(')[0]
+        if func is not None and r.startswith(name + '()') and name in func.nested:
+            h = func.nested[name]
+            hflow = flow_of(h.node)
+            inner = set()
+            for ret in ast.walk(h.node):
+                if isinstance(ret, ast.Return) and ret.value is not None:
+                    inner |= {x for x in hflow.resolve(ret.value) if path_base(x) not in h.params()}
+            roots.discard(r)
+            roots |= inner or {r}
     return bool(roots) and all(r.startswith(ok) for r in roots)
 
 
@@ -532,7 +545,7 @@ def _classify_source(repo, func, cfg, flow, node, v, seq):
                             path_of(r.slice) == seq + '.rule' for k, r in defs):
                 # arguments: only seq.args and the cited theorems
                 for a in v.args:
-                    if not _from_cited(flow, a.value if isinstance(a, ast.Starred) else a, func.params()[1], seq):
+                    if not _from_cited(flow, a.value if isinstance(a, ast.Starred) else a, func.params()[1], seq, func):
                         return None
                 return 'primitive rule'
             return None
@@ -540,7 +553,7 @@ def _classify_source(repo, func, cfg, flow, node, v, seq):
             defs = flow.defs.get(v.func.value.id, [])
             if defs and all(k == 'value' and isinstance(r, ast.Call) and call_name(r) == 'get_macro' and
                             [path_of(a) for a in r.args] == [seq + '.rule'] for k, r in defs):
-                if len(v.args) == 2 and path_of(v.args[0]) == seq + '.args' and _from_cited(flow, v.args[1], func.params()[1], seq):
+                if len(v.args) == 2 and path_of(v.args[0]) == seq + '.args' and _from_cited(flow, v.args[1], func.params()[1], seq, func):
                     return 'macro evaluation'
             return None
         return None
